@@ -1,6 +1,6 @@
 #!/usr/bin/env python3
 """keepseed.py <ID> <seed-name> [caught_by props...]
-Confirms a seeded change produced by an independent agent (worktree /tmp/seed3/<ID>, outputs /tmp/seed3/out-<ID>)
+Confirms a seeded change produced by an independent agent (worktree $SEEDROOT/<ID>, outputs $SEEDROOT/out-<ID>)
 in a fresh scratch worktree of /repo HEAD:
   - patch applies, `go build ./...` ok, full test suite passes WITH the patch (demo excluded),
   - the demo FAILS with the patch and PASSES without it.
@@ -10,8 +10,9 @@ import json, os, re, shutil, subprocess, sys, time
 
 ID, name = sys.argv[1], sys.argv[2]
 caught = sys.argv[3:]
-src_wt = f"/tmp/seed3/{ID}"
-out = f"/tmp/seed3/out-{ID}"
+ROOT = os.environ.get("SEEDROOT") or sys.exit("set SEEDROOT=/tmp/seedN (the round's directory)")
+src_wt = f"{ROOT}/{ID}"
+out = f"{ROOT}/out-{ID}"
 scratch = f"/tmp/confirm-{ID}"
 env = dict(os.environ, GOFLAGS="-mod=mod", GOPROXY="off", GOSUMDB="off", GOTOOLCHAIN="local")
 env.pop("GOWORK", None)
